@@ -18,6 +18,7 @@ Expected(r) == PrintOutcome(r.e, [vars |-> r.vars, ij |-> r.ij, glob |-> r.glob]
 Agree(r, x) ==
   CASE x.t = "unspec" -> TRUE
     [] x.t = "err" -> r.obs.err
+    [] x.t = "noval" -> r.obs.err \/ r.obs.out \in {"", "null", "undefined"}
     [] OTHER -> ~r.obs.err /\ r.obs.out = x.s
 
 Init == l = 1 /\ nbad = 0 /\ nskip = 0 /\ nerr = 0
